@@ -84,8 +84,19 @@ def pure(run: Run) -> tuple[bool, str]:
     return True, ""
 
 
+def accessor_post_exc(spec, run: Run, pre: Any, exc) -> None:
+    """C06 drops the operators' `noraise.*` clauses (they are C07's); an accessor that raises is C06's own business
+    ("render without error", accessors usable on every returned tree): clause family `total.noraise.*`, never dropped."""
+    if exc.name in spec.raises:
+        return
+    run.oblige(f"total.noraise.{exc.name}", False, note=exc.detail)
+
+
 class PairModel(FunctionSpec):
     yield_kind = "token"
+
+    def post_exc(self, run: Run, pre: Any, exc) -> None:
+        accessor_post_exc(self, run, pre, exc)
 
     def mk_pair(self, run: Run) -> Ref:
         me = run.fresh("self_pair", "pair")
@@ -315,9 +326,9 @@ def specs(tier):
     rules = [r if r.modifier != 4 else ops.RuleSpec(4, None, "impl") for r in groups.rules()]
     code = [*groups.core_terminals()[:6], *groups.stack_terminals(), *groups.structure(), *groups.backtracking(), *rules, *groups.trivia(), *groups.entry(),
             *templates.all_templates(3 if tier == "quick" else 5, kids="impl")]
-    from . import c06_dump
+    from . import c06_access, c06_dump
 
-    return [*code, PairTokens(), PairsTokens(), FlattenInner(), PairsFlatten(), *c06_dump.specs(tier)]
+    return [*code, PairTokens(), PairsTokens(), FlattenInner(), PairsFlatten(), *c06_dump.specs(tier), *c06_access.specs(tier)]
 
 
 concretise = concretise_ops(PROPERTY, default_modes=("interp", "interp+opt", "gen", "gen+opt"))
